@@ -19,6 +19,7 @@ pub mod c12;
 pub mod c15;
 pub mod c16;
 pub mod c18;
+pub mod c19;
 pub mod fmode;
 pub mod c20;
 
@@ -82,7 +83,7 @@ pub const REAL_C: &str = "real code: roughenough-client main() (clap parsing, re
 pub const STUB: &str = "stubs: kernel (UDP sockets, SO_REUSEPORT groups, epoll edge semantics, TCP accept queue, port table), mio/mio-extras/net2/ctrlc/simple_logger glue, wall and monotonic clocks, OS entropy (ring SystemRandom, rand thread_rng/from_entropy), std thread/Mutex/process/env/fs::File, ahash keys";
 
 pub fn registry() -> Vec<Property> {
-    vec![c01::property(), c02::property(), c03::property(), c07::property(), c08::property(), c09::property(), c10::property(), c11::property(), c12::property(), c15::property(), c16::property(), c18::property(), c20::property()]
+    vec![c01::property(), c02::property(), c03::property(), c07::property(), c08::property(), c09::property(), c10::property(), c11::property(), c12::property(), c15::property(), c16::property(), c18::property(), c19::property(), c20::property()]
 }
 
 pub fn find(id: &str) -> Option<Property> {
